@@ -165,7 +165,7 @@ class IterableProvider(MorphingProvider):
         def iter_loader_dt_sc(data):
             if isinstance(data, CollectionsMapping):
                 raise ExcludedTypeLoadError(Iterable, Mapping, data)
-            if type(data) is str:
+            if isinstance(data, str):
                 raise ExcludedTypeLoadError(Iterable, str, data)
 
             try:
@@ -181,7 +181,7 @@ class IterableProvider(MorphingProvider):
         def iter_loader_sc(data):
             if isinstance(data, CollectionsMapping):
                 raise ExcludedTypeLoadError(Iterable, Mapping, data)
-            if type(data) is str:
+            if isinstance(data, str):
                 raise ExcludedTypeLoadError(Iterable, str, data)
 
             try:
